@@ -153,6 +153,16 @@ fn main() {
             }
         }
         "stack-child" => c18::child_main(&args[2]),
+        "prefix" => {
+            silence_panics();
+            match args[2].as_str() {
+                "C09" => batch::prefix_main::<c09::C09World>(&args[3..]),
+                "C12" => batch::prefix_main::<c12::C12World>(&args[3..]),
+                "C17" => batch::prefix_main::<c17::C17World>(&args[3..]),
+                "C18" => batch::prefix_main::<c18::C18World>(&args[3..]),
+                _ => usage(),
+            }
+        }
         "one" => {
             silence_panics();
             match args[2].as_str() {
